@@ -238,14 +238,17 @@ class NetNcp(NcpEzsp):
         return [vals[k] for k in rx]
 
     def _getNetworkKeyInfo(self, a):
-        t = self.t
+        # sl_zigbee_sec_man_network_key_info_t, packed by hand: bool network_key_set, bool alternate_network_key_set,
+        # uint8 network_key_sequence_number, uint8 alt_network_key_sequence_number, uint32 network_key_frame_counter (LE).
+        # The alternate key is not set; its sequence-number byte differs from the current key's so that the two cannot be confused.
+        import struct as _struct
+        from mc.env.ezspenv import RawWire
+
         if not self.running:
-            info = t.SecurityManagerNetworkKeyInfo(network_key_set=False, alternate_network_key_set=False, network_key_sequence_number=0,
-                                                   alt_network_key_sequence_number=0, network_key_frame_counter=0)
+            info = RawWire(_struct.pack("<BBBBI", 0, 0, 0, 0, 0))
         else:
-            info = t.SecurityManagerNetworkKeyInfo(network_key_set=True, alternate_network_key_set=False,
-                                                   network_key_sequence_number=self.network["security"].networkKeySequenceNumber,
-                                                   alt_network_key_sequence_number=0, network_key_frame_counter=self.nv_nwk_fc)
+            seq = int(self.network["security"].networkKeySequenceNumber) & 0xFF
+            info = RawWire(_struct.pack("<BBBBI", 1, 0, seq, seq ^ 0x5A, int(self.nv_nwk_fc) & 0xFFFFFFFF))
         return [self.st("getNetworkKeyInfo"), info]
 
     def _getCurrentSecurityState(self, a):
